@@ -6,9 +6,12 @@ import (
 	"fmt"
 	"mltwist/internal/deps"
 	"mltwist/internal/emulator"
+	"mltwist/internal/exprtransform"
 	"mltwist/internal/state"
 	"mltwist/internal/state/memory"
+	"mltwist/pkg/expr"
 	"mltwist/pkg/model"
+	"sort"
 	"strings"
 )
 
@@ -40,8 +43,45 @@ func depsemuRun(code *deps.Code, begin model.Addr, n int, seed uint64) string {
 				return fmt.Sprintf("err@%d", i)
 			}
 		}
-		return "ok " + dumpState(em.State)
+		return "ok " + depsemuDump(em.State)
 	})
+}
+
+// depsemuDump is dumpState with the memories written byte by byte (every byte
+// loaded and constant folded): the final VALUES, independent of how the sparse
+// memory happens to be cut into pieces.
+func depsemuDump(s *state.State) string {
+	keys := make([]string, 0, len(s.Mems))
+	for k := range s.Mems {
+		keys = append(keys, string(k))
+	}
+	sort.Strings(keys)
+
+	var sb strings.Builder
+	sb.WriteString(dumpRegs(s.Regs))
+	fmt.Fprintf(&sb, " M %d", len(keys))
+	for _, k := range keys {
+		m := s.Mems[expr.Key(k)]
+		bl := m.Blocks()
+		fmt.Fprintf(&sb, " %s %d", k, bl.Len())
+		for _, i := range bl.Intervals() {
+			fmt.Fprintf(&sb, " %d %d ", uint64(i.Begin()), uint64(i.End()))
+			for a := i.Begin(); a < i.End(); a++ {
+				ex, ok := m.Load(a, expr.Width8)
+				if !ok {
+					sb.WriteString("??")
+					continue
+				}
+				c, ok := exprtransform.ConstFold(ex).(expr.Const)
+				if !ok {
+					sb.WriteString("!!")
+					continue
+				}
+				fmt.Fprintf(&sb, "%02x", c.Bytes()[0])
+			}
+		}
+	}
+	return sb.String()
 }
 
 // depsemuProtect is protect with the class of the panic in the answer.
